@@ -357,6 +357,59 @@ fn family_by_name(name: &str) -> Family {
     }
 }
 
+/// Near twins: for every leaf of a block's signed part and every small edit that yields another
+/// readable block, A's genuine signature over the *edited* block is attached to the original one
+/// (and the other way round). It is a signature by an authorised key, but not over this block's
+/// content: it must not count.
+fn twin_leg(acc: &mut Acc) {
+    let a = keys::get("ed1");
+    let mut metas: Vec<(String, MetadataWrapper)> = world::sample_links("step").into_iter().map(|(n, l)| (format!("link/{n}"), MetadataWrapper::Link(l))).collect();
+    let lay = world::layout(
+        vec![world::step("Build-it", 1, &[a]).add_expected_product(in_toto::models::rule::ArtifactRule::Create("out/p".into())).add_expected_product(in_toto::models::rule::ArtifactRule::Disallow("keys/secret.key".into()))],
+        vec![in_toto::models::inspection::Inspection::new("check").run(vec!["true".to_string()].into())],
+        &[a],
+        world::far_future(),
+    );
+    metas.push(("layout".to_string(), MetadataWrapper::Layout(lay)));
+    for (mname, meta) in &metas {
+        let block = world::sign(meta.clone(), &[a]);
+        let v0 = world::block_value(&block);
+        let is_layout = matches!(meta, MetadataWrapper::Layout(_));
+        for e in crate::tamper::edits(&v0["signed"]) {
+            let mut v = v0.clone();
+            if !crate::tamper::apply(&mut v["signed"], &e) {
+                continue;
+            }
+            // the edited document must be readable and, for the library too, another value
+            let Ok(twin) = world::block_from_value(&v) else { continue };
+            if twin.metadata == *meta {
+                continue;
+            }
+            let keeps = if is_layout { crate::tamper::keeps_layout_content(&e, false) } else { crate::tamper::keeps_link_content(&e, &v0["signed"]) };
+            if keeps {
+                continue;
+            }
+            let twin_sig = world::sign(twin.metadata.clone(), &[a]).signatures[0].clone();
+            for (dir, content, sig) in [("signature over the edited block attached to the original", meta.clone(), twin_sig.clone()), ("signature over the original attached to the edited block", twin.metadata.clone(), block.signatures[0].clone())] {
+                acc.evaluations += 1;
+                acc.nontrivial += 1;
+                acc.states += 1;
+                let b = Metablock { signatures: vec![sig], metadata: content };
+                let r = guard(|| b.verify(1, [a.public()]));
+                let w = || json!({"kind": "near-twin", "block": mname, "edit": e, "direction": dir});
+                match r {
+                    Guard::Done(Ok(_)) => {
+                        acc.outcome("twin-signature-counted");
+                        acc.violation(&format!("counted:signature-over-near-twin:{}", crate::tamper::kind_of(&e)), &format!("{mname}: {dir} ({e}) met threshold 1: a signature over other content counted"), w);
+                    }
+                    Guard::Done(Err(_)) => acc.outcome("twin-signature-not-counted"),
+                    Guard::Panicked(l, m) => acc.violation(&format!("panic:{l}"), &m, w),
+                }
+            }
+        }
+    }
+}
+
 pub fn run(tier: Tier) -> i32 {
     let mut c = Check::new("C04", "model_checking", tier);
     let full = if tier.thorough() { 5 } else { 4 };
@@ -403,6 +456,8 @@ pub fn run(tier: Tier) -> i32 {
         });
         acc.merge(Acc::merge_all(accs));
     }
+    twin_leg(&mut acc);
+    bounds.push("near twins: 3 links + 1 layout x every leaf of the signed part x every small edit that yields another readable block, both directions".to_string());
     c.acc = acc;
     c.rule = "state = signature list (sequence over {valid by A/B/C, garbage labelled A, B's signature relabelled A, second valid signature by A, empty labelled A, A's / B's valid signature under an unknown key id, A's signature over other content, A's valid signature under an id sharing A's first 8 characters / under A's id in upper case}); transition = append one entry; each state is verified for every authorised sequence over {A,B,C} of length <= 3 (with duplicates, and empty) x thresholds {0,1,2,3,u32::MAX} x every iteration order of the internal signature map; two more families have ONE key loaded twice (A, A2: Ed25519 with / without a hash-algorithm list; one RSA modulus declared PSS-SHA256 / PSS-SHA512) next to an unrelated B, with each guise's signature under its own and under the other guise's id: distinct keys are counted by key material; one family has authorised keys whose declared scheme does not fit their material (Ed25519 material declared RSA-PSS) or is unknown: nothing attributed to them counts; non-trivial = list with an invalid entry, a repeated key id or one key under two ids".into();
     c.bound_completed = bounds.join("; ");
@@ -414,6 +469,12 @@ pub fn run(tier: Tier) -> i32 {
 }
 
 pub fn replay(case: &Value) -> Value {
+    if case["kind"] == "near-twin" {
+        let mut acc = Acc::new();
+        twin_leg(&mut acc);
+        let hit = acc.violations.values().find(|v| v.witness["edit"] == case["edit"] && v.witness["block"] == case["block"]).map(|v| v.key.clone());
+        return json!({"note": "the near-twin leg is re-run as a whole", "violation": hit.or_else(|| acc.violations.keys().next().cloned())});
+    }
     let fam = family_by_name(case["family"].as_str().unwrap_or("ed25519"));
     let list: Vec<usize> = case["signatures"].as_array().map(|a| a.iter().filter_map(|x| fam.entries.iter().position(|e| Some(e.name.as_str()) == x.as_str())).collect()).unwrap_or_default();
     let auth: Vec<usize> = case["authorized"].as_array().map(|a| a.iter().filter_map(|x| fam.key_names.iter().position(|e| Some(*e) == x.as_str())).collect()).unwrap_or_default();
